@@ -22,7 +22,7 @@ ASSUMPTIONS = ["independent reader/model is the oracle", "payloads unique per ce
 def run_case(ctx):
     src = ctx.src
     common.draw_env(ctx)
-    m = world.gen_world(src)
+    m = world.gen_world(src, scale=("hugebox", "manyboxes", "farcorner", "manyfields"))
     path, _ = common.materialise(ctx, m)
     limit = None
     if m.nlev > 1 and src.flag("limit"):
